@@ -162,6 +162,13 @@ def _check(task):
         devs.append((abs(r4 * r4 - exp) / np.sqrt(tol * scale * G * G), "rmsd n=%d" % n))
         if abs(r4 * r4 - exp) > tol:
             probs.append("rmsd with different atom_indices / ref_atom_indices orders differs from the minimum (n=%d)" % n)
+        # the same pairing handed to superpose: atom perm[i] of the shuffled target goes onto atom i of the reference
+        tsp = md.Trajectory(tsh.xyz.copy(), tsh.topology)
+        tsp.superpose(ref, 0, atom_indices=perm, ref_atom_indices=np.arange(n))
+        plain_p = float(((tsp.xyz[0, perm].astype(np.float64) - ref.xyz[0]) ** 2).sum(1).mean())
+        devs.append((abs(plain_p - exp) / np.sqrt(tol * scale * G * G), "superpose(perm) n=%d" % n))
+        if abs(plain_p - exp) > 4 * tol + 1e-9:
+            probs.append("superpose with different atom_indices / ref_atom_indices orders: paired atoms not at the minimum (n=%d)" % n)
         # superpose attains the minimum by a rigid motion
         t2 = md.Trajectory(t.xyz.copy(), t.topology)
         t2.superpose(ref, 0)
